@@ -92,7 +92,9 @@ Definition dispatch (W : nat) (lease : bool) (s : rstate) (w : wire) (c : conten
   match c with
   | CHs pushok retr =>
       if pushok then (mark W s w, [OMark e q; OHs retr]) else (s, [])
-  | CAck => (mark W s w, [OMark e q; OAck])
+  | CAck =>
+      (* handleRecordContent: ACKs are only ever sent protected; an unprotected one is discarded *)
+      if e =? 0 then (s, []) else (mark W s w, [OMark e q; OAck])
   | CAlert level desc =>
       let s1 := mark W s w in
       let reply := if desc =? desc_close_notify then [OAlert alert_warning desc_close_notify] else [] in
